@@ -16,7 +16,7 @@ import time
 VERIF = os.path.dirname(os.path.dirname(os.path.abspath(__file__)))
 REPO = os.environ.get("VERIF_REPO", "/repo")
 COQ = os.path.join(VERIF, "coq")
-SPMODEL = os.path.join(VERIF, "extract", "spmodel")
+SPMODEL = os.environ.get("SPMODEL") or os.path.join(VERIF, "extract", "spmodel")
 
 ALLOWED_AXIOMS = {
     # standard-library axioms a theorem may depend on (named in the trusted base
@@ -181,10 +181,6 @@ def sh(cmd, cwd=None, timeout=3600):
 def coq_sources():
     res = []
     for root, _, files in os.walk(os.path.join(COQ, "theories")):
-        for f in files:
-            if f.endswith(".v"):
-                res.append(os.path.join(root, f))
-    for root, _, files in os.walk(os.path.join(COQ, "extract")):
         for f in files:
             if f.endswith(".v"):
                 res.append(os.path.join(root, f))
